@@ -270,7 +270,7 @@ func h6FileRuntime(env *Env, c *H1Cfg, hr *h1Run, stats simrt.Stats, kept []int)
 			}
 			env.Hit("h6.stage_env_checked")
 		}
-		whole := w1 <= stop && fe.MaxIterations == 0
+		whole := w1 <= stop && fe.MaxIterations == 0 && !fe.SlowBodies
 		// (enough workers for the largest per-tick request of the generated stages, so that no start is pushed across
 		// the end of an occurrence's window by a busy pool)
 		if whole && st.Def != "" && hr.Snap.Drop == 0 && fe.Concurrency >= 8 && (hr.HaveResult || hr.HaveCounts) {
